@@ -14,6 +14,7 @@ package cache_test
 
 import (
 	"bufio"
+	"context"
 	"database/sql"
 	"encoding/json"
 	"fmt"
@@ -53,6 +54,54 @@ type vTicker struct {
 func newVTicker() *vTicker                { return &vTicker{c: make(chan time.Time), stopped: make(chan struct{})} }
 func (t *vTicker) Chan() <-chan time.Time { return t.c }
 func (t *vTicker) Stop()                  { t.once.Do(func() { close(t.stopped) }) }
+
+// ---------------------------------------------------------------- caller contexts
+
+// handCtx is a context with a deadline on the virtual time axis: "half a second after the call",
+// i.e. before the first background retry.  Virtual seconds have no wall-clock counterpart (a
+// tick of the cleaner's wheel is issued by hand), so the wall-clock instant reported by
+// Deadline lies far enough ahead never to cut a socket operation short, and the driver lets the
+// deadline pass by hand (expire) between the return of the call and the next tick.
+type handCtx struct {
+	mu   sync.Mutex
+	done chan struct{}
+	err  error
+	at   time.Time
+}
+
+func newHandCtx() *handCtx { return &handCtx{done: make(chan struct{}), at: time.Now().Add(time.Hour)} }
+
+func (c *handCtx) Deadline() (time.Time, bool) { return c.at, true }
+func (c *handCtx) Done() <-chan struct{}       { return c.done }
+func (c *handCtx) Value(any) any               { return nil }
+func (c *handCtx) Err() error {
+	c.mu.Lock()
+	defer c.mu.Unlock()
+	return c.err
+}
+
+func (c *handCtx) expire() {
+	c.mu.Lock()
+	defer c.mu.Unlock()
+	if c.err == nil {
+		c.err = context.DeadlineExceeded
+		close(c.done)
+	}
+}
+
+// callCtx gives the context of kind cx for one write and the function that ends it; end is
+// called as soon as the write has returned.
+func callCtx(cx string) (ctx context.Context, end func(), err error) {
+	switch cx {
+	case "cancel":
+		c, cancel := context.WithCancel(context.Background())
+		return c, cancel, nil
+	case "deadline":
+		h := newHandCtx()
+		return h, h.expire, nil
+	}
+	return nil, nil, fmt.Errorf("unknown caller context %q", cx)
+}
 
 // ---------------------------------------------------------------- Redis nodes
 
@@ -131,16 +180,18 @@ type stubConn struct{ sqlx.Conn } // never used by the callbacks
 
 type env struct {
 	nodes   []*mnode
-	conn    sqlc.CachedConn
-	fault   string            // "error" | "close"
-	rclu    bool              // the cache node's Redis is of ClusterType (one server, model nodes are virtual)
-	mnodes  int               // number of model nodes
-	pkKind  string            // "small" | "big" | "str": see pkValue
-	pkID    map[string]int    // printed primary value -> model id
-	pkReal  map[string]string // printed primary value -> Redis key
-	real    map[string]string // logical key ("p:1", "i:a") -> Redis key
-	logical map[string]string // Redis key -> logical key
-	place   map[string]int    // logical key -> node (1-based)
+	conn    sqlc.CachedConn                            // the connection of the current history
+	mkConn  func(opts ...cache.Option) sqlc.CachedConn // a cached connection over the same Redis nodes
+	conns   map[string]sqlc.CachedConn                 // expiry configuration -> connection
+	fault   string                                     // "error" | "close"
+	rclu    bool                                       // the cache node's Redis is of ClusterType (one server, model nodes are virtual)
+	mnodes  int                                        // number of model nodes
+	pkKind  string                                     // "small" | "big" | "str": see pkValue
+	pkID    map[string]int                             // printed primary value -> model id
+	pkReal  map[string]string                          // printed primary value -> Redis key
+	real    map[string]string                          // logical key ("p:1", "i:a") -> Redis key
+	logical map[string]string                          // Redis key -> logical key
+	place   map[string]int                             // logical key -> node (1-based)
 	ids     []int
 	names   []string
 
@@ -182,8 +233,8 @@ func (e *env) keyer(primary any) string {
 // logical key the node it must live on; with more than one node the Redis key names get a
 // suffix chosen such that the cluster's consistent hash really puts them there (found by
 // storing a probe through the cache and looking where it arrives).
-func newEnv(nnodes int, place map[string]int, ids []int, names []string, expire, nfExpire time.Duration, fault, rtype, pkKind string) (*env, error) {
-	e := &env{pkKind: pkKind, pkID: map[string]int{}, pkReal: map[string]string{}, fault: fault, real: map[string]string{}, logical: map[string]string{}, place: place, ids: ids, names: names,
+func newEnv(nnodes int, place map[string]int, ids []int, names []string, opts []cache.Option, fault, rtype, pkKind string) (*env, error) {
+	e := &env{conns: map[string]sqlc.CachedConn{}, pkKind: pkKind, pkID: map[string]int{}, pkReal: map[string]string{}, fault: fault, real: map[string]string{}, logical: map[string]string{}, place: place, ids: ids, names: names,
 		rclu: rtype == redis.ClusterType, mnodes: nnodes}
 	if e.rclu && fault != "error" {
 		return nil, fmt.Errorf("Redis-Cluster mode supports error-reply outages only")
@@ -199,11 +250,12 @@ func newEnv(nnodes int, place map[string]int, ids []int, names []string, expire,
 		}
 		e.nodes = append(e.nodes, n)
 	}
-	opts := []cache.Option{cache.WithExpire(expire), cache.WithNotFoundExpire(nfExpire)}
 	if e.rclu {
 		// through the configuration path: cache.New with one node of type "cluster" (go-redis
 		// ClusterClient; miniredis answers CLUSTER SLOTS with itself for all slots)
-		e.conn = sqlc.NewConn(stubConn{}, cache.Config{{Config: redis.Config{Host: e.nodes[0].addr, Type: redis.ClusterType}, Weight: 100}}, opts...)
+		e.mkConn = func(opts ...cache.Option) sqlc.CachedConn {
+			return sqlc.NewConn(stubConn{}, cache.Config{{Config: redis.Config{Host: e.nodes[0].addr, Type: redis.ClusterType}, Weight: 100}}, opts...)
+		}
 		n := e.nodes[0]
 		n.vdown = map[int]bool{}
 		n.keyNode = func(arg string) (int, bool) {
@@ -214,14 +266,18 @@ func newEnv(nnodes int, place map[string]int, ids []int, names []string, expire,
 			return e.place[lk], true
 		}
 	} else if nnodes == 1 {
-		e.conn = sqlc.NewNodeConn(stubConn{}, redis.New(e.nodes[0].addr), opts...)
+		e.mkConn = func(opts ...cache.Option) sqlc.CachedConn {
+			return sqlc.NewNodeConn(stubConn{}, redis.New(e.nodes[0].addr), opts...)
+		}
 	} else {
 		var cfg cache.Config
 		for _, n := range e.nodes {
 			cfg = append(cfg, cache.NodeConfig{Config: redis.Config{Host: n.addr, Type: redis.NodeType}, Weight: 100})
 		}
-		e.conn = sqlc.NewConn(stubConn{}, cfg, opts...)
+		e.mkConn = func(opts ...cache.Option) sqlc.CachedConn { return sqlc.NewConn(stubConn{}, cfg, opts...) }
 	}
+	// (where a key lives depends on the nodes only, not on the options)
+	e.conn = e.mkConn(opts...)
 	var lks []string
 	base := map[string]string{} // logical key -> Redis key name (before any placement suffix)
 	for _, id := range ids {
@@ -268,6 +324,43 @@ func newEnv(nnodes int, place map[string]int, ids []int, names []string, expire,
 		e.pkID[s], e.pkReal[s] = id, e.real[pkey(id)]
 	}
 	return e, nil
+}
+
+// expiryOpt is one expiry option as a history configures it: not given at all, or given with a
+// number of seconds that may be zero or negative.
+type expiryOpt struct {
+	Set bool `json:"set"`
+	V   int  `json:"v"`
+}
+
+func (o expiryOpt) class() string {
+	switch {
+	case !o.Set:
+		return "unset"
+	case o.V == 0:
+		return "zero"
+	case o.V < 0:
+		return "negative"
+	}
+	return "positive"
+}
+
+// useConfig makes the connection configured with the given expiry options the current one.
+func (e *env) useConfig(ex, nf expiryOpt) {
+	k := fmt.Sprintf("%+v/%+v", ex, nf)
+	c, ok := e.conns[k]
+	if !ok {
+		var opts []cache.Option
+		if ex.Set {
+			opts = append(opts, cache.WithExpire(time.Duration(ex.V)*time.Second))
+		}
+		if nf.Set {
+			opts = append(opts, cache.WithNotFoundExpire(time.Duration(nf.V)*time.Second))
+		}
+		c = e.mkConn(opts...)
+		e.conns[k] = c
+	}
+	e.conn = c
 }
 
 func (e *env) close() {
@@ -598,6 +691,8 @@ func (cr *caseRunner) runOnce(c kit.Case) (v kit.Verdict) {
 		return v
 	}
 	hadFail := false // some removal has failed so far in this history
+	var cfgE, cfgNF expiryOpt
+	ctxEnded := map[string]bool{} // keys whose removal failed under a context that has ended since
 	for i, st := range c.Steps {
 		op := kit.Str(st["op"])
 		if op == "init" {
@@ -606,6 +701,19 @@ func (cr *caseRunner) runOnce(c kit.Case) (v kit.Verdict) {
 				return infra(err.Error())
 			}
 			mathx.SetVerifUnstable(func() (float64, bool) { return r, true })
+			cm, ok := st["cfg"].(map[string]any)
+			if !ok {
+				return infra("init record without expiry configuration")
+			}
+			b, _ := json.Marshal(cm)
+			var hc struct{ E, Nf expiryOpt }
+			if err := json.Unmarshal(b, &hc); err != nil {
+				return infra("init record: " + err.Error())
+			}
+			cfgE, cfgNF = hc.E, hc.Nf
+			e.useConfig(cfgE, cfgNF)
+			cr.rep.Count("cfg_e_"+cfgE.class(), 1)
+			cr.rep.Count("cfg_nf_"+cfgNF.class(), 1)
 			for _, x := range kit.List(st["db"]) {
 				m := x.(map[string]any)
 				id := int64(kit.Num(m["id"]))
@@ -633,18 +741,38 @@ func (cr *caseRunner) runOnce(c kit.Case) (v kit.Verdict) {
 		case "put", "delete":
 			id := int64(kit.Num(st["id"]))
 			wantX = 1
-			_, err := e.conn.Exec(func(_ sqlx.Conn) (sql.Result, error) {
+			write := func() {
 				e.qx++
 				if op == "put" {
 					e.db[id] = row{Id: id, Name: kit.Str(st["name"]), Data: kit.Str(st["data"])}
 				} else {
 					delete(e.db, id)
 				}
-				return nil, nil
-			}, e.realKeys(st["keys"])...)
+			}
+			var err error
+			if cx := kit.Str(st["cx"]); cx == "bg" {
+				_, err = e.conn.Exec(func(_ sqlx.Conn) (sql.Result, error) { write(); return nil, nil }, e.realKeys(st["keys"])...)
+			} else {
+				ctx, end, cerr := callCtx(cx)
+				if cerr != nil {
+					return infra(cerr.Error())
+				}
+				_, err = e.conn.ExecCtx(ctx, func(context.Context, sqlx.Conn) (sql.Result, error) { write(); return nil, nil }, e.realKeys(st["keys"])...)
+				end()
+			}
 			gotRes, gotErr = e.classify(err), err
 		case "delcache":
-			err := e.conn.DelCache(e.realKeys(st["keys"])...)
+			var err error
+			if cx := kit.Str(st["cx"]); cx == "bg" {
+				err = e.conn.DelCache(e.realKeys(st["keys"])...)
+			} else {
+				ctx, end, cerr := callCtx(cx)
+				if cerr != nil {
+					return infra(cerr.Error())
+				}
+				err = e.conn.DelCacheCtx(ctx, e.realKeys(st["keys"])...)
+				end()
+			}
 			gotRes, gotErr = e.classify(err), err
 		case "setcache":
 			id := kit.Num(st["id"])
@@ -702,6 +830,14 @@ func (cr *caseRunner) runOnce(c kit.Case) (v kit.Verdict) {
 				}
 				if wnt != "" {
 					cr.rep.Count("retry_del_seconds", 1)
+					for _, f := range want[t] {
+						for _, k := range kit.List(f.(map[string]any)["keys"]) {
+							if ctxEnded[kit.Str(k)] {
+								cr.rep.Count("retry_del_after_ctx_end", 1)
+								delete(ctxEnded, kit.Str(k))
+							}
+						}
+					}
 				}
 			}
 			v.Steps += n
@@ -766,6 +902,21 @@ func (cr *caseRunner) runOnce(c kit.Case) (v kit.Verdict) {
 			}
 			if len(wantDels(kit.List(st["dels"]))) < len(kit.List(st["keys"])) {
 				hadFail = true // some named key could not be removed: a retry is pending from now on
+				cx := kit.Str(st["cx"])
+				cr.rep.Count("failed_removal_cx_"+cx, 1)
+				if cx != "bg" {
+					removed := map[string]bool{}
+					for _, g := range kit.List(st["dels"]) {
+						for _, k := range kit.List(g.(map[string]any)["keys"]) {
+							removed[kit.Str(k)] = true
+						}
+					}
+					for _, k := range kit.List(st["keys"]) {
+						if !removed[kit.Str(k)] {
+							ctxEnded[kit.Str(k)] = true
+						}
+					}
+				}
 			}
 		}
 		got, bad := e.cacheNow()
@@ -787,6 +938,15 @@ func (cr *caseRunner) runOnce(c kit.Case) (v kit.Verdict) {
 		for lk := range got {
 			if _, ok := wantCache[lk]; !ok {
 				return infra("key " + lk + " missing in the specification's snapshot")
+			}
+		}
+		for _, wv := range wantCache {
+			switch w := kit.Num(wv); {
+			case w == 0:
+			case w%10 == kindNf && cfgNF.class() != "positive":
+				cr.rep.Count("stored_default_nf_expiry", 1)
+			case w%10 != kindNf && cfgE.class() != "positive":
+				cr.rep.Count("stored_default_expiry", 1)
 			}
 		}
 	}
@@ -829,20 +989,18 @@ func opArgs(st kit.M) string {
 // envFromEnviron builds the environment described by VERIF_C06_* variables.
 func envFromEnviron() (*env, error) {
 	var cfg struct {
-		Nodes  int            `json:"nodes"`
-		Place  map[string]int `json:"place"`
-		Ids    []int          `json:"ids"`
-		Names  []string       `json:"names"`
-		RType  string         `json:"rtype"`
-		Pk     string         `json:"pk"`
-		Expire int            `json:"expire"`
-		NF     int            `json:"nf"`
+		Nodes int            `json:"nodes"`
+		Place map[string]int `json:"place"`
+		Ids   []int          `json:"ids"`
+		Names []string       `json:"names"`
+		RType string         `json:"rtype"`
+		Pk    string         `json:"pk"`
 	}
 	if err := json.Unmarshal([]byte(kit.Env("VERIF_C06_CFG", "")), &cfg); err != nil {
 		return nil, fmt.Errorf("VERIF_C06_CFG: %v", err)
 	}
-	return newEnv(cfg.Nodes, cfg.Place, cfg.Ids, cfg.Names, time.Duration(cfg.Expire)*time.Second,
-		time.Duration(cfg.NF)*time.Second, kit.Env("VERIF_C06_FAULT", "error"), cfg.RType, cfg.Pk)
+	// (every history brings its own expiry configuration: see useConfig)
+	return newEnv(cfg.Nodes, cfg.Place, cfg.Ids, cfg.Names, nil, kit.Env("VERIF_C06_FAULT", "error"), cfg.RType, cfg.Pk)
 }
 
 // forEachCase streams the case file: one line is decoded at a time and only the lines of this
@@ -926,7 +1084,8 @@ func TestVerifC06Concurrent(t *testing.T) {
 	rounds, readers := kit.EnvInt("VERIF_C06_ROUNDS", 40), kit.EnvInt("VERIF_C06_READERS", 16)
 	ids := []int{1, 2}
 	e, err := newEnv(1, map[string]int{"p:1": 1, "p:2": 1}, ids, nil,
-		time.Duration(kit.EnvInt("VERIF_C06_E", 30))*time.Second, time.Duration(kit.EnvInt("VERIF_C06_NF", 10))*time.Second, "error", redis.NodeType, "small")
+		[]cache.Option{cache.WithExpire(time.Duration(kit.EnvInt("VERIF_C06_E", 30)) * time.Second),
+			cache.WithNotFoundExpire(time.Duration(kit.EnvInt("VERIF_C06_NF", 10)) * time.Second)}, "error", redis.NodeType, "small")
 	if err != nil {
 		tr.Emit(kit.M{"e": "infra", "msg": err.Error()})
 		return
